@@ -35,7 +35,8 @@ PID = "C17"
 CALCS = ["vasp", "aims", "lammps", "pwmat", "abinit", "qe", "wien2k", "elk", "siesta", "abacus", "cp2k", "crystal", "dftbp", "turbomole", "castep", "fleur"]
 
 
-RT_MODES = ["vasp", "abinit", "aims", "castep", "dftbp", "elk", "lammps", "pwmat"]        # writers/readers that need no calculator-specific extras
+RT_MODES = ["vasp", "abinit", "aims", "castep", "dftbp", "elk", "lammps", "pwmat",        # writers/readers that need no calculator-specific extras
+            "abacus", "qe", "siesta", "turbomole"]       # written fragment + the minimal header the reader requires (see _rt_extras)
 
 
 def units(tier):
@@ -696,6 +697,39 @@ def magmom_unit(u, res):
     return res
 
 
+def _rt_extras(mode, cell):
+    """optional_structure_info the dispatcher needs for the writers that take calculator-specific names (file names are arbitrary labels)"""
+    sp = list(dict.fromkeys(cell.symbols))
+    if mode == "elk":
+        return (None, ["%s.in" % s_ for s_ in sp])
+    if mode == "qe":
+        return (None, {s_: s_ + ".UPF" for s_ in sp})
+    if mode == "siesta":
+        return (None, {s_: i + 1 for i, s_ in enumerate(sp)})
+    if mode == "abacus":
+        return (None, {s_: s_ + ".upf" for s_ in sp}, {s_: s_ + ".orb" for s_ in sp}, None)
+    return None
+
+
+def _rt_complete(mode, fn, cell):
+    """QE and SIESTA writers emit the structure fragment of an input file; the readers need the counts / species table that the user's
+    input supplies.  Prepend exactly that (no structural data) and return the path the reader is given."""
+    import os
+    from phonopy.structure.atoms import symbol_map
+    sp = list(dict.fromkeys(cell.symbols))
+    if mode == "qe":
+        body = open(fn).read()
+        open(fn, "w").write("&system\n ibrav = 0, nat = %d, ntyp = %d\n/\n" % (len(cell), len(sp)) + body)
+    if mode == "siesta":
+        body = open(fn).read()
+        open(fn, "w").write("NumberOfAtoms %d\nNumberOfSpecies %d\n%%block ChemicalSpeciesLabel\n" % (len(cell), len(sp)) +
+                            "".join("%d %d %s\n" % (i + 1, symbol_map[s_], s_) for i, s_ in enumerate(sp)) + "%endblock ChemicalSpeciesLabel\n" + body)
+    if mode == "turbomole":          # a directory with control + coord; control refers to coord by relative name
+        os.chdir(fn)
+        return "control"
+    return fn
+
+
 def roundtrip_unit(u, res):
     """write_crystal_structure -> read_crystal_structure through phonopy's own dispatch, for the interfaces that need no extra
     calculator information: evaluated on three concrete cells (text formats have no solver theory; these are ground facts)."""
@@ -706,13 +740,16 @@ def roundtrip_unit(u, res):
         d = tempfile.mkdtemp(prefix="verif_c17_")
         try:
             fn = os.path.join(d, "structure")
-            info = (None, ["%s.in" % s_ for s_ in dict.fromkeys(cell.symbols)]) if mode == "elk" else None
+            info = _rt_extras(mode, cell)
+            cwd = os.getcwd()
             try:
                 write_crystal_structure(fn, cell, interface_mode=mode, optional_structure_info=info)
-                back = read_crystal_structure(fn, interface_mode=mode)[0]
+                back = read_crystal_structure(_rt_complete(mode, fn, cell), interface_mode=mode)[0]
                 why = _same_crystal(cell, back)
             except Exception as exc:
                 why = "%s: %s" % (type(exc).__name__, exc)
+            finally:
+                os.chdir(cwd)
         finally:
             shutil.rmtree(d, ignore_errors=True)
         ok = why is None
